@@ -345,11 +345,29 @@ def rv_offset_equiv_from_source():
     return out
 
 
-def rv_pair_range_from_source():
-    """the accepted range of the auipc-pair offsets, from the source text: immediates (plugin) and labels (runtime write_value)"""
-    src = open(os.path.join(common.REPO, "plugin/src/arch/riscv/compiler.rs")).read()
-    m = re.search(r"if bits == 32 \{\s*range = (0x[0-9A-Fa-f_]+);", src)
-    imm_lo, imm_hi = -(1 << 31), -(1 << 31) + (int(m.group(1).replace("_", ""), 16) if m else 0xFFFFFFFF)
+def rv_pair_range_from_source(items=None):
+    """the accepted range of the auipc-pair offsets: immediates = what the plugin ACCEPTS today (probed at the candidate boundaries for
+    every pair pseudo-instruction; the widest answer, so that a form that accepts more than it can encode falsifies the theorems),
+    labels = the range test of the runtime's write_value (read from the source text)"""
+    imm_lo, imm_hi = -(1 << 31), 0x7FFFF7FF
+    if items:
+        import c15
+        cands = [0x7FFFF7FF, 0x7FFFF800, 0x7FFFFFFF, -(1 << 31)]
+        reqs, vals = [], []
+        for it in items:
+            if not it["check"] or it["check"][0] != "Pair":
+                continue
+            for xlen in (64, 32):
+                if it["isa"] & (2 if xlen == 64 else 1):
+                    for v in cands:
+                        reqs.append("cl " + c15.header(it, xlen) + " " + c15.syntax(it, str(v)))
+                        vals.append(v)
+        if reqs:
+            _, out = common.sh([common.PLUG, "exec"], inp="\n".join(reqs) + "\n", timeout=600)
+            acc = [v for v, (_, a) in zip(vals, common.answers_of_impl(out)) if a.startswith("ok")]
+            if not acc:
+                raise TranslationError("no auipc-pair pseudo-instruction accepts any of the boundary offsets")
+            imm_lo, imm_hi = min(acc), max(acc)
     rt = open(os.path.join(common.REPO, "runtime/src/riscv.rs")).read()
     m = re.search(r"Self::SPLIT32S => \{\s*if value < (-?0x[0-9A-Fa-f_]+) \|\| value > (-?0x[0-9A-Fa-f_]+)", rt)
     if not m:
@@ -363,8 +381,6 @@ def gen_rvli(rows=None):
     and the statement that executing them (Model/RvExec) yields the requested value / pc + offset."""
     rows = rows if rows is not None else dump("riscv")
     equiv = rv_offset_equiv_from_source()
-    ranges = rv_pair_range_from_source()
-    pair_lo, pair_hi = min(ranges["imm"][0], ranges["label"][0]), max(ranges["imm"][1], ranges["label"][1])
     items = []
     for r in rows:
         op = rustdebug.parse(r["op"])
@@ -426,12 +442,14 @@ def gen_rvli(rows=None):
         items.append(dict(m=r["m"], i=r["i"], words=words, fields=fields, regs=sorted(regs), check=check, rd_var=rd_var, isa=isa, is_li=is_li,
                           matchers=[m[0] if isinstance(m, tuple) else m for m in op["matchers"]], exts=exts, chunks=chunks,
                           reloc=next((c[1] for c in cmds if isinstance(c, tuple) and c[0] == "Offset"), None)))
+    ranges = rv_pair_range_from_source(items)
+    pair_lo, pair_hi = min(ranges["imm"][0], ranges["label"][0]), max(ranges["imm"][1], ranges["label"][1])
     os.makedirs(common.GEN, exist_ok=True)
     thms = []
     with open(os.path.join(common.GEN, "RvLi.lean"), "w") as f:
         f.write("import Std.Tactic.BVDecide\nimport DynasmVerif.Model.RvExec\n/-! generated from today's riscv table: emitted words of `li*` and the auipc-pair pseudo instructions, and what executing them yields -/\n")
         f.write("set_option maxRecDepth 100000\nnamespace DynasmVerif.RvLi\nopen DynasmVerif.RvExec\n")
-        f.write(f"/-- the accepted range of auipc-pair offsets read from the source: immediates {ranges['imm']}, labels {ranges['label']} (union) -/\n"
+        f.write(f"/-- the accepted range of auipc-pair offsets: immediates (probed on the plugin) {ranges['imm']}, labels {ranges['label']} (union) -/\n"
                 f"def pairLo : BitVec 64 := BitVec.ofInt 64 ({pair_lo})\ndef pairHi : BitVec 64 := BitVec.ofInt 64 ({pair_hi})\n")
         for it in items:
             name = re.sub(r"[^A-Za-z0-9]", "_", it["m"]) + f"_{it['i']}"
